@@ -12,6 +12,9 @@ not the last may be short or empty and still carry a nextLink) is served through
   status / url for HTTP and network failures), every response object handed out so far has been closed, the
   caches hold only what a successful response delivered, and the retry on the healed transport returns the
   complete listing.
+* (round 6) paging links carry query strings ($skiptoken / signature styles), so `exc.url` is compared against such URLs too;
+  `check_crafted_patterns`: path patterns whose wildcards span `/` against files above / at / below the pattern's directory depth;
+  `check_error_fields`: the request error reports the status and URL it was constructed with.
 """
 import fnmatch
 import logging
